@@ -19,7 +19,7 @@ type c01P struct {
 	Suite    refbmc.Suite
 	User     string
 	Pass     []byte
-	KGMode   int // 0 absent, 1 random 20 bytes, 2 equal to (padded) password
+	KGMode   int // 0 absent, 1 random 20 bytes, 2 equal to (padded) password, 3 absent but given as an empty non-nil slice
 	KG       []byte
 	Priv     byte
 	Lookup   bool // PrivilegeLevelLookup
@@ -103,7 +103,7 @@ func c01Random(r *rand.Rand, seed int64) c01P {
 	p := c01P{Suite: su, Seed: seed, Cmds: 1 + r.Intn(3)}
 	p.User = randUser(r, r.Intn(17))
 	p.Pass = randPass(r, r.Intn(21))
-	p.KGMode = r.Intn(3)
+	p.KGMode = r.Intn(4)
 	p.Priv = byte(r.Intn(6))
 	p.Lookup = r.Intn(2) == 0
 	p.Discover = r.Intn(4) == 0
@@ -245,6 +245,10 @@ func c01One(run *ev.Run, p c01P) {
 		PrivilegeLevelLookup: p.Lookup,
 		KG:                   cfg.KG,
 		CipherSuites:         suites,
+	}
+	if p.KGMode == 3 && cfg.KG == nil {
+		// no BMC key, expressed the way a configuration loader does: zero length, not nil
+		opts.KG = [][]byte{{}, make([]byte, 0, 20), []byte("")}[len(p.User)%3]
 	}
 
 	var st *bmc.V2SessionlessTransport
